@@ -1,6 +1,7 @@
 """Decision tree with deterministic replay, z3 interface, scalar proxies."""
 import sys
 import time
+import zlib
 from fractions import Fraction
 
 import z3 as _z3
@@ -21,6 +22,10 @@ class Unsupported(BaseException):
 
 class PathAbort(BaseException):
     """assume() failed: the path is infeasible for the harness; discarded."""
+
+
+class ShardSkip(PathAbort):
+    """this decision prefix belongs to another shard of the cell"""
 
 
 class StepBudget(BaseException):
@@ -90,6 +95,42 @@ class Ctx(object):
         self.violations = []
         self.samples = []
         self.active = False
+        # (i, N, D): explore only the decision prefixes of depth D whose
+        # hash is i mod N (a cell split over N processes)
+        self.shard = None
+        self.skipped = 0
+
+    def _shard_filter(self, n, kind):
+        sh = self.shard
+        if sh is None:
+            return
+        i, N, D = sh
+        depth = len(self.trail)
+        if depth >= D:
+            return
+        if 'v' in self.trail_kinds:
+            return              # only shard 0 gets below a value fork
+        if kind == 'v':
+            # the value picked by the solver is not the same in every
+            # process: no partition below this node, shard 0 takes it all
+            if i != 0:
+                for s in n.feas:
+                    n.feas[s] = False
+            return
+        if depth == D - 1:
+            pre = tuple(self.trail_sides)
+            for s in list(n.feas):
+                if n.feas[s] and zlib.crc32(
+                        repr(pre + (s,)).encode()) % N != i:
+                    n.feas[s] = False
+
+    def _pick(self, n, sides):
+        for side in sides:
+            if self._open(n, side):
+                return side
+        if self.shard is not None and not any(n.feas.values()):
+            raise ShardSkip()
+        raise EngineError('revisiting exhausted node')
 
     # ---- path life cycle
     def _add(self, t):
@@ -119,6 +160,8 @@ class Ctx(object):
         self._npc = 0
         self.cur = self.root
         self.trail = []
+        self.trail_sides = []
+        self.trail_kinds = []
         self.inputs = {}          # name -> z3 const (symbolic inputs)
         self.choices = {}         # name -> concrete int (forked choices)
         self.order = []           # names in creation order
@@ -195,6 +238,8 @@ class Ctx(object):
         if kid is None:
             kid = n.kids[side] = Node()
         self.trail.append(n)
+        self.trail_sides.append(side)
+        self.trail_kinds.append(n.key[0])
         self.cur = kid
 
     @staticmethod
@@ -219,11 +264,8 @@ class Ctx(object):
             if not (f0 or f1):
                 raise EngineError('both sides infeasible')
             n.feas = {1: f1, 0: f0}
-        for side in (1, 0):
-            if self._open(n, side):
-                break
-        else:
-            raise EngineError('revisiting exhausted node')
+            self._shard_filter(n, 'd')
+        side = self._pick(n, (1, 0))
         self._add(e if side else z3.Not(e))
         self._take(n, side)
         return bool(side)
@@ -235,11 +277,8 @@ class Ctx(object):
         if n.feas is None:
             self.choice_decisions += 1
             n.feas = dict((k, True) for k in range(n_alt))
-        for side in range(n_alt):
-            if self._open(n, side):
-                break
-        else:
-            raise EngineError('revisiting exhausted choice node')
+            self._shard_filter(n, 'c')
+        side = self._pick(n, range(n_alt))
         self._take(n, side)
         self.choices[name] = side
         self.order.append(name)
@@ -260,12 +299,9 @@ class Ctx(object):
                 n.payload = (m,)
                 self.decisions += 1
                 n.feas = {1: True, 0: self._check(e != m)}
+                self._shard_filter(n, 'v')
             m = n.payload[0]
-            for side in (1, 0):
-                if self._open(n, side):
-                    break
-            else:
-                raise EngineError('revisiting exhausted node')
+            side = self._pick(n, (1, 0))
             self._add(e == m if side else e != m)
             self._take(n, side)
             if side:
@@ -285,10 +321,12 @@ class Ctx(object):
             raise PathAbort()
         self._add(e)
 
-    def end(self, aborted=False):
+    def end(self, aborted=False, skipped=False):
         self.active = False
         self.cur.done = True
-        if aborted:
+        if skipped:
+            self.skipped += 1
+        elif aborted:
             self.aborted += 1
         else:
             self.paths += 1
